@@ -178,15 +178,29 @@ Definition bump_nsys (s : os) : os :=
   {| o_ext := o_ext s; o_script := o_script s; o_trace := o_trace s; o_now := o_now s;
      o_nextfd := o_nextfd s; o_nsys := o_nsys s + 1; o_faults := o_faults s |}.
 
+(* rules (negative keys -(100 * from + which)): every set-up call of kind [which] with index >= from fails — the kernel's
+   state-dependent answers (getpeername on a reset connection: ENOTCONN); the first rule in file order wins *)
+Fixpoint rule_err (which nsys : Z) (l : list (Z * Z)) : option Z :=
+  match l with
+  | [] => None
+  | (k, v) :: t => if (k <? 0) && ((- k) mod 100 =? which) && ((- k) / 100 <=? nsys) then Some v else rule_err which nsys t
+  end.
+
+Definition fault_of (s : os) (which : Z) : Z :=
+  match lookup (o_nsys s) (o_faults s) with
+  | Some e => e
+  | None => match rule_err which (o_nsys s) (o_faults s) with Some e => e | None => 0 end
+  end.
+
 (* returns 0 on success, else the errno (> 0) *)
 Definition sys_setup (which fd : Z) : M Z :=
-  fun s => let err := match lookup (o_nsys s) (o_faults s) with Some e => e | None => 0 end in
+  fun s => let err := fault_of s which in
            let '(_, s1) := emit K_SYS [which; fd; err] s in
            (Ok err, bump_nsys s1).
 
 (* socket(): returns (fd or -1, errno) *)
 Definition sys_socket : M (Z * Z) :=
-  fun s => let err := match lookup (o_nsys s) (o_faults s) with Some e => e | None => 0 end in
+  fun s => let err := fault_of s S_SOCKET in
            let '(_, s1) := emit K_SYS [S_SOCKET; o_nextfd s; err] s in
            let s2 := bump_nsys s1 in
            if err =? 0 then (Ok (o_nextfd s2, 0), alloc_fd s2) else (Ok (-1, err), s2).
